@@ -412,7 +412,7 @@ def check_interleavings(ctx, d, defn_doc):
 
 def run(ctx):
     arm_setattr(ctx)
-    ndocs = ctx.size(48, 3000)
+    ndocs = ctx.size(96, 15000)
     for d in range(ndocs):
         if not ctx.mine(d):
             continue
@@ -420,7 +420,7 @@ def run(ctx):
         if d < 2:
             ctx.sample({"doc": d, "note": "stream of generated packets compared with per-packet solo results under 8 option combinations"})
     # interleavings on a few documents per shard
-    for d in range(ctx.size(16, 160)):
+    for d in range(ctx.size(32, 600)):
         if not ctx.mine(d):
             continue
         rng = ctx.rng("ildoc", d)
